@@ -326,12 +326,27 @@ let op_scope (args : str list) : str list =
 (* statements: "<hex text of FUNCTION_BLOCK name body END_FUNCTION_BLOCK>" -> parsed <S-expressions> | rejected | fuel | scope *)
 let hex_of_text (t : text) : str = S.concat "" (List.map (fun c -> Printf.sprintf "%x." (int_of_n c)) t)
 let lname (t : text) : str = S.lowercase_ascii (str_of_text t)
+let tykw_name = function
+  | TSint -> "sint" | TInt -> "int" | TDint -> "dint" | TLint -> "lint" | TUsint -> "usint" | TUint -> "uint" | TUdint -> "udint"
+  | TUlint -> "ulint" | TReal -> "real" | TLreal -> "lreal" | TTime -> "time" | TDate -> "date" | TTod -> "time_of_day"
+  | TDt -> "date_and_time" | TByte -> "byte" | TWord -> "word" | TDword -> "dword" | TLword -> "lword"
+(* a real constant as the bits of its binary64 value: the text without '_' read by strtod (correctly rounded), negated for '-' *)
+let real_bits (sg : bool option) (lit : text) : str =
+  let s = S.concat "" (List.filter (fun c -> c <> "_") (List.map (S.make 1) (List.of_seq (S.to_seq (str_of_text lit))))) in
+  match float_of_string_opt s with
+  | Some f -> let f = (match sg with Some true -> -. f | _ -> f) in Printf.sprintf "%Lx" (Int64.bits_of_float f)
+  | None -> "?" ^ s
+let sx_leaf = function
+  | LfInt (neg, v) -> "i:" ^ (if neg then "-" else "") ^ dec_of_n v
+  | LfBool b -> if b then "b:true" else "b:false"
+  | LfStr c -> "s:" ^ hex_of_text c
+  | LfName n -> "n:" ^ lname n
+  | LfReal (ty, sg, lit) -> "r:" ^ (match ty with Some k -> tykw_name k | None -> "-") ^ ":" ^ real_bits sg lit
+  | LfTInt (k, neg, v) -> "ti:" ^ tykw_name k ^ ":" ^ (if neg then "-" else "") ^ dec_of_n v
+  | LfBits (k, v) -> "bs:" ^ tykw_name k ^ ":" ^ dec_of_n v
 let rec sx_expr (e : sexpr) : str =
   match e with
-  | XAtom (LfInt (neg, v)) -> "i:" ^ (if neg then "-" else "") ^ dec_of_n v
-  | XAtom (LfBool b) -> if b then "b:true" else "b:false"
-  | XAtom (LfStr c) -> "s:" ^ hex_of_text c
-  | XAtom (LfName n) -> "n:" ^ lname n
+  | XAtom l -> sx_leaf l
   | XVar (n, ss) -> sx_var n ss
   | XBin (o, l, r) -> "(" ^ binop_name o ^ " " ^ sx_expr l ^ " " ^ sx_expr r ^ ")"
   | XUn (o, x) -> "(" ^ unop_name o ^ " " ^ sx_expr x ^ ")"
@@ -378,11 +393,6 @@ let op_stmts (args : str list) : str list =
   | _ -> ["bad-args"]
 
 (* function block with declaration blocks: "<hex text>" -> parsed <vars> <edges> <statements> | rejected | fuel | scope *)
-let sx_leaf = function
-  | LfInt (neg, v) -> "i:" ^ (if neg then "-" else "") ^ dec_of_n v
-  | LfBool b -> if b then "b:true" else "b:false"
-  | LfStr c -> "s:" ^ hex_of_text c
-  | LfName n -> "n:" ^ lname n
 let sx_dinit = function
   | DSimple (ty, None) -> "(simple " ^ lname ty ^ " -)"
   | DSimple (ty, Some c) -> "(simple " ^ lname ty ^ " " ^ sx_leaf c ^ ")"
@@ -403,6 +413,16 @@ let op_fbd (args : str list) : str list =
        | O2Scope -> ["scope"])
   | _ -> ["bad-args"]
 
+(* the significant tokens of a rendered token list, kind:texthex, with a leading '+' when trivia stands before the token *)
+let sig_tokens (toks : token list) : str =
+  let rec go gap = function
+    | [] -> []
+    | (t : token) :: r ->
+        let k = kind_name t.t_kind in
+        if k = "Whitespace" || k = "Newline" || k = "Comment" then go true r
+        else ((if gap then "+" else "") ^ k ^ ":" ^ hex_of_text t.t_text) :: go false r in
+  S.concat " " (go false toks)
+
 (* renderer model: "<hex text>" -> the significant tokens (kind:texthex) the renderer model writes for the statement list
    the parser model reads from the text | notparsed *)
 let op_strender (args : str list) : str list =
@@ -413,10 +433,7 @@ let op_strender (args : str list) : str list =
        | OParsed l ->
            let toks = render_list l in
            [ "rendered";
-             S.concat " " (List.filter_map (fun (t : token) ->
-               let k = kind_name t.t_kind in
-               if k = "Whitespace" || k = "Newline" || k = "Comment" then None
-               else Some (k ^ ":" ^ hex_of_text t.t_text)) toks) ]
+             sig_tokens toks ]
        | _ -> ["notparsed"])
   | _ -> ["bad-args"]
 
@@ -597,12 +614,9 @@ let op_fbdrender (args : str list) : str list =
        | O2Parsed (ds, l) ->
            let vars = List.filter (function DVar _ -> true | _ -> false) ds in
            let edges = List.filter (function DEdge _ -> true | _ -> false) ds in
-           let toks = render_decls (vars @ edges) @ render_list l in
+           let toks = render_decls (vars @ edges) @ nl1 @ render_list l in      (* a line break between the two renderings *)
            [ "rendered";
-             S.concat " " (List.filter_map (fun (t : token) ->
-               let k = kind_name t.t_kind in
-               if k = "Whitespace" || k = "Newline" || k = "Comment" then None
-               else Some (k ^ ":" ^ hex_of_text t.t_text)) toks) ]
+             sig_tokens toks ]
        | _ -> ["notparsed"])
   | _ -> ["bad-args"]
 
@@ -625,10 +639,7 @@ let op_lib2render (args : str list) : str list =
                  EFunc { f with fn_decls = vars @ edges } in
            let toks = render_lib2 (List.map reorder es) in
            [ "rendered";
-             S.concat " " (List.filter_map (fun (t : token) ->
-               let k = kind_name t.t_kind in
-               if k = "Whitespace" || k = "Newline" || k = "Comment" then None
-               else Some (k ^ ":" ^ hex_of_text t.t_text)) toks) ]
+             sig_tokens toks ]
        | _ -> ["notparsed"])
   | _ -> ["bad-args"]
 
